@@ -502,6 +502,8 @@ func propC20(c *Ctx) {
 	rlc := c.Rule("loop-cover", "every iteration of a container arm's element loop stores the converted element or returns an error: no element is skipped", 4)
 	ruleLoopCover(c, rlc)
 
+	rcp := c.Rule("conv-passthrough", "a registered converter wraps or unwraps its payload and never computes one: no call whose result depends on the payload lies between the converter's input and its result", 6)
+	ruleConvPassthrough(c, rcp)
 	rcn := c.Rule("conv-nil", "every registered converter for a pointer type tests the pointer for nil before dereferencing it", 1)
 	ruleConvNil(c, rcn)
 
